@@ -62,6 +62,19 @@ def _read_nat(b: bytes, i: int):
             return n, i
 
 
+def read_manager_prefix(body: bytes, i: int):
+    """tag(1) source(21) fee counter gas_limit storage_limit — common prefix of every manager content."""
+    tag = body[i]
+    i += 1
+    source = body[i:i + 21]
+    i += 21
+    fee, i = _read_nat(body, i)
+    counter, i = _read_nat(body, i)
+    gas, i = _read_nat(body, i)
+    storage, i = _read_nat(body, i)
+    return dict(tag=tag, source=source.hex(), fee=fee, counter=counter, gas_limit=gas, storage_limit=storage), i
+
+
 def decode_transactions(payload: bytes):
     """Counters (and sources) of the contents of a signed operation group made only of parameter-less
     transactions between implicit accounts, read off the binary form (Tezos P2P encoding):
@@ -71,22 +84,41 @@ def decode_transactions(payload: bytes):
     i = 0
     out = []
     while i < len(body):
-        if body[i] != 108:
-            raise ValueError(f'content tag {body[i]} at {i}: only transactions are modelled')
-        i += 1
-        source = body[i:i + 21]
-        i += 21
-        fee, i = _read_nat(body, i)
-        counter, i = _read_nat(body, i)
-        gas, i = _read_nat(body, i)
-        storage, i = _read_nat(body, i)
+        head, i = read_manager_prefix(body, i)
+        if head['tag'] != 108:
+            raise ValueError(f'content tag {head["tag"]}: only transactions are modelled')
         amount, i = _read_nat(body, i)
         i += 22
         if body[i] != 0:
             raise ValueError('parameters are not modelled')
         i += 1
-        out.append(dict(source=source.hex(), counter=counter, fee=fee, gas_limit=gas, storage_limit=storage, amount=amount))
+        out.append(dict(head, amount=amount))
     return out
+
+
+def validate_reader(artefact: dict, forged: bytes):
+    """Oracle self-check against a recorded Octez operation (tests/unit_tests/test_operation/data/<hash>.json):
+    `forged` (branch + contents) together with the recorded signature must hash to the recorded operation
+    hash (so the bytes are the ones Octez accepted), and the reader must find the recorded manager fields."""
+    sig = _b58decode_check(artefact['signature'])[-64:]
+    if op_hash(forged + sig) != artefact['hash']:
+        return False, 'forged bytes + recorded signature do not hash to the recorded operation hash'
+    head, _ = read_manager_prefix(forged[32:], 0)
+    c = artefact['contents'][0]
+    want = dict(fee=int(c['fee']), counter=int(c['counter']), gas_limit=int(c['gas_limit']), storage_limit=int(c['storage_limit']))
+    got = {k: head[k] for k in want}
+    return got == want and head['tag'] == 108, f'reader {got} tag {head["tag"]} / recorded {want}'
+
+
+def _b58decode_check(s: str) -> bytes:
+    n = 0
+    for ch in s:
+        n = n * 58 + _B58.index(ch)
+    raw = n.to_bytes((n.bit_length() + 7) // 8, 'big')
+    raw = b'\0' * (len(s) - len(s.lstrip('1'))) + raw
+    body, chk = raw[:-4], raw[-4:]
+    assert hashlib.sha256(hashlib.sha256(body).digest()).digest()[:4] == chk, 'bad base58 checksum'
+    return body
 
 
 class NodeRejects(Exception):
